@@ -14,6 +14,16 @@
 //	          point at a wrong output, direction bit, message flags, htlc_maximum
 //	          around the capacity, timestamps zero / equal / stale / far future,
 //	          chain hash, feature bits, extra data ...), each in three graph states;
+//	kinds     channel kinds: every feature vector of c20KindFeatures (empty, simple
+//	          taproot optional / required / both / with another bit, unknown odd and
+//	          even neighbours, final taproot bits) x every funding-output form of the
+//	          universe (the 2-of-2 of both bitcoin keys as P2WSH and as P2TR MuSig2;
+//	          one key twice, one key alone, 1-of-2, tweak left out, keys unsorted,
+//	          bare multisig, a foreign key, spent, tiny amount), all four signatures
+//	          valid, on both stores; thorough: each followed by a restart and the
+//	          same announcement again, byte corruptions of the taproot announcement,
+//	          and an ordering space mixing announcements of both kinds for the same
+//	          outputs with updates and a restart (order/chan-kind);
 //	order     all sequences up to the depth bound over an alphabet of valid messages
 //	          and corrupted twins (duplicates, updates before their channel, stale
 //	          and equal timestamps, a block event releasing held messages, bursts of
@@ -826,6 +836,9 @@ type c20Tier struct {
 	tinyDepth, tinyDepthSQL                 int
 	zombieDepth, zombieDepthSQL             int
 	zombieLooseDepthSQL                     int // non-strict pruning on sqlite (differs from strict by one branch)
+	// channel-kind family: the single-step cross product always runs (both stores);
+	kindRestart             bool // each announcement, a restart, the announcement again
+	kindDepth, kindDepthSQL int  // order/chan-kind spaces
 }
 
 var c20AlphabetCore = []string{
@@ -848,10 +861,11 @@ func c20Tiers(thorough bool) c20Tier {
 			flagsDepth:       6,
 			flagsSQL:         true,
 			samePeerAlphabet: append(append([]string{}, c20AlphabetCore...), "xCA.btc2:=evil,resigned"),
-			byteBases:        []string{"CA", "CU0b", "CU1b", "NA1b", "NA2"},
+			byteBases:        []string{"CA", "CU0b", "CU1b", "NA1b", "NA2", c20KindID("181", "tr2of2")},
 			byteStride:       1, semSQL: true, bytesSQL: true, deadline: 26 * time.Minute,
 			restartDepth: 7, restartDepthSQL: 6, restarts: 2, tinyDepth: 6, tinyDepthSQL: 5,
 			zombieDepth: 6, zombieDepthSQL: 5, zombieLooseDepthSQL: 5,
+			kindRestart: true, kindDepth: 5, kindDepthSQL: 4,
 		}
 	} else {
 		tr = c20Tier{
@@ -863,6 +877,7 @@ func c20Tiers(thorough bool) c20Tier {
 			byteStride:       1, semSQL: true, deadline: 150 * time.Second,
 			restartDepth: 5, restartDepthSQL: 4, restarts: 1, tinyDepth: 4, tinyDepthSQL: 0,
 			zombieDepth: 4, zombieDepthSQL: 3,
+			kindDepth: 3,
 		}
 	}
 	geti := func(k string, d *int) {
@@ -876,6 +891,7 @@ func c20Tiers(thorough bool) c20Tier {
 	geti("VERIF_C20_DEPTH_FLAGS", &tr.flagsDepth)
 	geti("VERIF_C20_DEPTH_RESTART", &tr.restartDepth)
 	geti("VERIF_C20_DEPTH_ZOMBIE", &tr.zombieDepth)
+	geti("VERIF_C20_DEPTH_KIND", &tr.kindDepth)
 	return tr
 }
 
@@ -921,6 +937,25 @@ func c20LifecycleSpaces(tier c20Tier) []c20SpaceDef {
 	add("order/zombie/kv", c20Cfg{Backend: "kv"}, zombieAlphabet, tier.zombieDepth, 1)
 	add("order/zombie-strict/sql", c20Cfg{Backend: "sql", Strict: true}, zombieAlphabet, tier.zombieDepthSQL, 1)
 	add("order/zombie/sql", c20Cfg{Backend: "sql"}, zombieAlphabet, tier.zombieLooseDepthSQL, 1)
+	// channel kinds: announcements of both kinds for the taproot and the legacy
+	// output (the right kind, the other kind, a single-key output), the same channel
+	// announced again with the other taproot bit, updates of both channels, a restart.
+	// No prefix: the graph starts empty.
+	kindAlphabet := []string{
+		c20KindID("181", "tr2of2"), c20KindID("0", "tr2of2"), c20KindID("181", "wsh2of2"), "CA",
+		c20KindID("181", "tr-k1k1"), "kCU0a.tr2of2", "kCU1a.tr2of2", "restart",
+	}
+	if tier.kindDepthSQL > 0 {
+		// thorough: the same channel announced again with the other taproot bit, a
+		// newer update, an update of the legacy channel
+		kindAlphabet = append(kindAlphabet, c20KindID("180", "tr2of2"), "kCU0b.tr2of2", "CU0a")
+	}
+	if tier.kindDepth > 0 {
+		sp = append(sp, c20SpaceDef{name: "order/chan-kind/kv", cfg: c20Cfg{Backend: "kv"}, alphabet: kindAlphabet, depth: tier.kindDepth, dedup: true, maxRestarts: 1})
+	}
+	if tier.kindDepthSQL > 0 {
+		sp = append(sp, c20SpaceDef{name: "order/chan-kind/sql", cfg: c20Cfg{Backend: "sql"}, alphabet: kindAlphabet, depth: tier.kindDepthSQL, dedup: true, maxRestarts: 1})
+	}
 	return sp
 }
 
@@ -1206,6 +1241,20 @@ func c20Worker(t *testing.T) {
 			}
 		}
 	}
+	// ---- channel kinds: feature vector x funding-output form ------------------
+	// (part of the corruption enumeration, which runs first: a deadline never cuts it)
+	nKind := 0
+	for _, be := range backends {
+		for _, id := range c20Cat.KindCA {
+			semCases = append(semCases, c20Case{Space: "kind/empty/" + be, Cfg: c20Cfg{Backend: be}, Ops: []string{id}})
+			nKind++
+			if tier.kindRestart {
+				// accepted stays known, refused stays refused across a restart
+				semCases = append(semCases, c20Case{Space: "kind/restart/" + be, Cfg: c20Cfg{Backend: be, LazyViews: true}, Ops: []string{id, "restart", id}})
+				nKind++
+			}
+		}
+	}
 	byteBackends := []string{"kv"}
 	if tier.bytesSQL {
 		byteBackends = append(byteBackends, "sql")
@@ -1254,7 +1303,8 @@ func c20Worker(t *testing.T) {
 		exhaustive = false
 		caps = append(caps, fmt.Sprintf("deadline %s reached during the semantic corruption enumeration (%d of %d cases)", tier.deadline, nSem, len(semCases)))
 	}
-	c20Info("semantic corruptions: %d cases (%d variants) in %.1fs", nSem, len(c20Cat.SemCA)+len(c20Cat.SemCU)+len(c20Cat.SemNA), time.Since(t0).Seconds())
+	c20Info("semantic corruptions: %d cases (%d variants; of these channel kinds: %d cases = %d feature vectors x %d funding outputs per store) in %.1fs", nSem,
+		len(c20Cat.SemCA)+len(c20Cat.SemCU)+len(c20Cat.SemNA)+len(c20Cat.KindCA), nKind, len(c20KindFeatures), len(c20KindOutNames()), time.Since(t0).Seconds())
 	t0 = time.Now()
 	nByte, capped := c20RunCases(t, byteCases, stats, deadline)
 	if capped {
@@ -1478,6 +1528,7 @@ func c20Worker(t *testing.T) {
 	run.Assumptions = append(run.Assumptions,
 		"gossip v1 messages only (channel_announcement, channel_update, node_announcement); announcement_signatures, gossip queries and gossip v2 are outside the alphabet",
 		"fixed key material (two node keys, two bitcoin keys, one attacker node key, one attacker bitcoin key); one honest channel plus a tiny-capacity and a future-block channel on a 4-block universe",
+		"channel kinds: the feature bits 180/181 announce a simple taproot channel whose 2-of-2 form is P2TR of the BIP 86-tweaked MuSig2 (BIP 327, keys sorted) aggregate of the two bitcoin keys (computed with btcd's musig2 package, not lnd's helpers); every other vector announces a BOLT 3 P2WSH 2-of-2; the right keys in the other kind's form, untweaked, unsorted or as bare multisig do not count; for the final taproot bits 80/81 (not defined for gossip v1) either 2-of-2 form of both keys is accepted and a refusal is too; tapscript roots (custom channels) are outside the alphabet; feature vectors are minimally encoded",
 		"messages are delivered by ProcessRemoteAnnouncement one at a time, each run to quiescence in virtual time (synctest) before the next; concurrent delivery of several messages is not enumerated (lnd serialises per channel id)",
 		"AssumeChannelValid=false, no alias scids, graph marked synced (broadcast enabled); the store's lazy timer-driven batch scheduler runs with interval 0 (as the repo's test stores): with a positive interval a synctest bubble freezes when one replayed update waits for the gossiper's per-channel sync.Mutex while its holder waits for the virtual batch timer",
 		"bursts (ops joined by '&') hand several messages over back to back; lnd processes them concurrently under the Go scheduler; handler interleavings inside a burst are not enumerated, the outcome must equal that of some serial order",
@@ -1495,7 +1546,23 @@ func c20Worker(t *testing.T) {
 	cov["evaluations"] = atomic.LoadInt64(&stats.steps)
 	cov["semantic_corruption_cases"] = nSem
 	cov["byte_corruption_cases"] = nByte
-	cov["catalogue"] = map[string]int{"semantic_ca": len(c20Cat.SemCA), "semantic_cu": len(c20Cat.SemCU), "semantic_na": len(c20Cat.SemNA)}
+	cov["catalogue"] = map[string]int{"semantic_ca": len(c20Cat.SemCA), "semantic_cu": len(c20Cat.SemCU), "semantic_na": len(c20Cat.SemNA),
+		"kind_ca": len(c20Cat.KindCA), "kind_feature_vectors": len(c20KindFeatures), "kind_funding_outputs": len(c20KindOutNames())}
+	cov["channel_kind_cases"] = nKind
+	{
+		// per-cell outcome of the channel-kind cross product (kv, empty graph): a cell
+		// that is empty or a row with one outcome only would be visible here
+		cells := map[string]int{}
+		for k, n := range stats.classes {
+			if strings.HasPrefix(k, "kind/empty/") {
+				p := strings.Split(k, "|")
+				if len(p) >= 4 {
+					cells[p[2]+" -> "+p[3]] += n
+				}
+			}
+		}
+		cov["channel_kind_outcomes"] = cells
+	}
 	cov["spaces"] = spaceCov
 	cov["distinct_outcome_classes"] = len(stats.classes)
 	cov["distinct_nontrivial"] = nontrivial
